@@ -370,7 +370,91 @@ def job_beam(cfg):
     return res
 
 
+def job_point_array(cfg):
+    """concentrated load given as ONE nodal array used for several unknowns and in two successive calls: every component distributes the same
+    total, the caller's array is left untouched, the second call gives the same nodal forces"""
+    from EasyFEA import Simulations
+
+    res = JobResult(cfg)
+    c = new_context()
+    facade.install()
+    et = cfg["elem"]
+    mesh = simlib.gmsh_mesh(et, layers=1)
+    dim = mesh.dim
+    key = f"elastic {et} concentrated load from one nodal array reused for {dim} unknowns and in a second call"
+    res.functions |= {"_Simu.add_neumann", "_Simu.__Bc_pointLoad", "_Simu.__Bc_evaluate", "_Simu.Bc_vector_Neumann", "_Simu.Bc_Init"}
+    nodes = face_nodes(mesh, 0, 1.0)
+    N = len(nodes)
+    vals = [c.var(f"f{i}", -1, 1) for i in range(N)]
+    res.symbols = N
+    unknowns = ["x", "y", "z"][:dim]
+
+    def scenario(arr):
+        simu = Simulations.Elastic(mesh, make_material("iso_stress" if dim == 2 else "iso", dim), verbosity=False)
+        before = arr.copy()
+        simu.add_neumann(nodes, [arr] * dim, unknowns)
+        F1 = np.asarray(simu.Bc_vector_Neumann(), dtype=object).reshape(mesh.Nn, dim).copy()
+        after1 = arr.copy()
+        simu.Bc_Init()
+        simu.add_neumann(nodes, [arr], [unknowns[-1]])
+        F2 = np.asarray(simu.Bc_vector_Neumann(), dtype=object).reshape(mesh.Nn, dim).copy()
+        return before, after1, F1, F2
+
+    def replay(env):
+        full = {kk: float(v) for kk, v in {**c.shadow, **(env or {})}.items()}
+        arr = np.array([float(as_sym(v).eval(full)) for v in vals], dtype=float)  # a float64 array, as a user passes it
+        try:
+            before, after1, F1, F2 = scenario(arr)
+        except Exception as e:
+            return True, {"raised": repr(e)[:200]}
+        F1, F2 = np.asarray(F1, dtype=float), np.asarray(F2, dtype=float)
+        tot = float(before.sum() / N)
+        info = {"values": before.tolist(), "expected_resultant_per_component": tot, "resultant_first_call": F1.sum(axis=0).tolist(), "resultant_second_call": F2.sum(axis=0).tolist(),
+                "caller_array_modified": bool(np.abs(after1 - before).max() > 0)}
+        bad = bool(np.abs(F1.sum(axis=0) - tot).max() > 1e-9 or abs(F2[:, -1].sum() - tot) > 1e-9 or info["caller_array_modified"])
+        return bad, info
+
+    mark = c.mark()
+    try:
+        with facade.symbolic():
+            before, after1, F1, F2 = scenario(np.array(vals, dtype=object))
+    except Exception as e:
+        res.record(f"{key}: the scenario runs", Outcome("cex", env=dict(c.shadow), how="shadow", detail=repr(e)[:200]), replay, key=f"{et} point load from a reused nodal array")
+        res.twin(f"{key} twin", True)
+        return res
+    pcs = c.pc_since(mark)
+    res.paths, res.path_conditions = 1, len(pcs)
+    total = sum(vals) * Fraction(1, N)
+    worst = None
+    for k in range(dim):
+        o = prove_abs_le(sum(as_sym(v) for v in F1[:, k]) - total, TOL, pcs, key)
+        if o.status != "held":
+            worst = o
+            break
+    res.record(f"{key}: every component carries the same total (mean of the array)", worst or Outcome("held", how="exact"), replay, key=f"{et} point load from a reused nodal array",
+               sample={"config": key, "obligation": f"for all nodal values: sum of nodal forces in each of the {dim} directions = sum(values)/{N}"})
+    worst = None
+    for a, b in zip(after1, before):
+        o = prove_abs_le(as_sym(a) - as_sym(b), 0, pcs, key)
+        if o.status != "held":
+            worst = o
+            break
+    res.record(f"{key}: the caller's array is unchanged by add_neumann", worst or Outcome("held", how="normal-form"), replay, key=f"{et} point load from a reused nodal array")
+    o = prove_abs_le(sum(as_sym(v) for v in F2[:, dim - 1]) - total, TOL, pcs, key)
+    res.record(f"{key}: the second call with the same array gives the same total", o, replay, key=f"{et} point load from a reused nodal array")
+    o = prove_abs_le(sum(as_sym(v) for v in F1[:, 0]) - total * 2, TOL, pcs, "twin")
+    res.twin(f"{key} twin", o.status == "cex")
+    # the aliasing at stake exists for float64 arrays only (object arrays are copied by the conversions): the float path is replayed at the shadow point as well
+    bad, info = replay(None)
+    res.record(f"{key}: float64 array at the shadow point (same scenario on the unproxied code)", Outcome("held", how="ground-exact") if not bad else Outcome("cex", env=dict(c.shadow), how="shadow"), replay,
+               key=f"{et} point load from a reused nodal array")
+    res.stubs |= facade.USED_STUBS
+    return res
+
+
 def job(cfg):
+    if cfg.get("load") == "point_array":
+        return job_point_array(cfg)
     return job_beam(cfg) if cfg["sim"] == "beam" else job_continuum(cfg)
 
 
@@ -395,6 +479,8 @@ def main():
             k += 1
     for et in ("TRI3", "QUAD4", "TETRA4", "PRISM6"):
         configs.append({"sim": "elastic", "elem": et, "load": "surf_poly", "selection": "only-stray", "axis": 0, "value": 1.0})
+    for et in (("TRI3", "PRISM6") if tier == "quick" else ("TRI3", "QUAD8", "TETRA4", "PRISM6")):
+        configs.append({"sim": "elastic", "elem": et, "load": "point_array"})
     for et in (("TRI3", "HEXA8") if tier == "quick" else ("TRI3", "TRI6", "QUAD4", "TETRA4", "HEXA8")):
         configs.append({"sim": "elastic", "elem": et, "load": "volume_poly", "selection": "face", "axis": 1, "value": 1.0, "merged": True})
         configs.append({"sim": "thermal", "elem": et, "load": "volume_poly", "selection": "face", "axis": 1, "value": 1.0, "merged": True})
